@@ -29,7 +29,9 @@ def parse_fails(out):
 
 def run(rep, tier, seed, replay=None):
     res, changed = proof_stage(rep, 'C01', extra_trusted=[
-        'engine skeleton Model/Engine.v is hand-written (tied by the dirty-flag correspondence, the event-level correspondence with the real algorithms replayed, and trace validation)',
+        'engine skeleton Model/Engine.v is hand-written (tied by the dirty-flag correspondence, the event-level correspondence with the real algorithms replayed, trace validation, '
+        'and -- as the instance taffy_memo taffy_dispatch block_pre abs_child_block taffy_leaf under compute_root_layout -- by the whole-tree correspondence `vh taffytree`: '
+        'every stored layout of random mixed block / flex / grid trees, bit for bit)',
         'interface hypotheses WF, H1 (output-level theorems) and H3, HQ (layout-level theorem) on the real algorithms: validated on every traced pass, not proved; NS is falsified by the block algorithm (known finding, counted per run)',
         'exact-key memo = cfg(taffy_verif) hook; the real lossy key is a known finding',
         'theorems cover the root LayoutOutput and cache validity for every algorithm; the per-node stored layouts only for algorithms '
@@ -50,6 +52,16 @@ def run(rep, tier, seed, replay=None):
                 or 'compute_hidden_layout' in c])
     _blockreal.real_tree_k(rep, 'C01', binp, seed + 101, 3000 if tier != 'quick' or esc else 300)
     _blockreal.lossy_witness(rep, binp)
+    # ---- whole-tree K (wave 6): the COMPLETE engine -- compute_root_layout + exact-key memo + dispatch on (display, has_children) + the
+    # block / flex / grid resumptions + compute_leaf_layout + hidden layout, the definitions C01_taffy_engine_* / C05_taffy_engine_* /
+    # C06_taffy_engine_* are about -- vs TaffyTree::compute_layout_with_measure on random mixed trees, one or two passes, every node's
+    # unrounded layout after every pass, bit for bit (notes/TAFFYTREE.md)
+    if not replay:
+        from . import _taffytree
+        _taffytree.tree_k(rep, 'C01', binp, seed + 606, 5000 if (tier != 'quick' or changed) else 600, family=0)
+        if tier != 'quick':
+            # larger trees (<= 24 nodes; the quick tier needs no bound for speed, this is extra coverage)
+            _taffytree.tree_k(rep, 'C01', binp, seed + 707, 1500, family=0, maxnodes=24, key='taffytree_large')
     # ---- search
     n = 600 if tier == 'quick' and not rep.broken else 6000
     if replay:
